@@ -305,9 +305,44 @@ fn chain_case(c: &Value, k: &C) -> Bad {
     None
 }
 
+
+/// recorder for spec/NumTrace.tla: State::update on arbitrary floats and arbitrary (odd) nanosecond intervals against the textbook formula in f64
+fn record(path: &str, seed: u64, n: usize) {
+    use std::io::Write;
+    let mut rng = Rng::new(seed);
+    let mut f = std::io::BufWriter::new(std::fs::File::create(path).expect("create trace"));
+    let eps = f32::EPSILON as f64;
+    let emit = |f: &mut std::io::BufWriter<std::fs::File>, what: &str, got: f32, exp: f64, mag: f64| {
+        let bound = 8.0 * eps * mag + f32::MIN_POSITIVE as f64;
+        let (e, b) = if !(exp.is_finite() && bound.is_finite()) { (0i64, 1i64) } else { ((((got as f64 - exp).abs() / bound) * 1.0e6).min(1.0e9) as i64, 1_000_000i64) };
+        writeln!(f, "{}", json!({"k": "b", "what": what, "err": e, "bound": b})).unwrap();
+    };
+    for k in 0..n {
+        // position zero in half of the cases (so that the travelled distance is not hidden behind a large position)
+        let p = if k % 2 == 0 { 0.0 } else { rng.float(-6, 14) };
+        let v = rng.float(-8, 30);
+        let a = if k % 3 == 0 { 0.0 } else { rng.float(-8, 30) };
+        // intervals: odd and even nanosecond counts from 1 ns to 1e5 s, either sign
+        let mag = match rng.below(4) { 0 => rng.range(1, 2000), 1 => rng.range(2000, 10_000_000), 2 => rng.range(10_000_000, 100_000_000_000), _ => rng.range(100_000_000_000, 100_000_000_000_000) };
+        let dt = if rng.next() & 1 == 0 { mag } else { -mag };
+        let mut s = State::new_raw(p, v, a);
+        s.update(Time(dt));
+        let (pf, vf, af, t) = (p as f64, v as f64, a as f64, dt as f64 / 1e9);
+        emit(&mut f, "velocity after update: v + a dt", s.velocity, vf + af * t, vf.abs() + (af * t).abs());
+        emit(&mut f, "position after update: p + v dt + a dt^2 / 2", s.position, pf + vf * t + af * t * t / 2.0, pf.abs() + (vf * t).abs() + (af * t * t / 2.0).abs());
+        emit(&mut f, "acceleration unchanged by update", s.acceleration, af, 0.0);
+    }
+    f.flush().unwrap();
+}
+
 fn main() {
     silence_panics();
     let args: Vec<String> = std::env::args().collect();
+    if args.len() >= 5 && args[1] == "record" {
+        record(&args[2], args[3].parse().unwrap_or(1), args[4].parse().unwrap_or(1000));
+        println!("SUMMARY {}", json!({"recorded": true}));
+        return;
+    }
     if args.len() < 4 || args[1] != "replay" {
         eprintln!("usage: kin replay <cases.ndjson> <seed> [--only <line>]");
         std::process::exit(2);
